@@ -94,6 +94,7 @@ func C03(c *Ctx) {
 	r.Rule("C03-a", "every call ast.New<Node>(pos, …) inside an on<Rule><n> method passes c.astPos() or a local whose only definition is c.astPos(); astPos returns ast.Pos{Line: c.pos.line, Col: c.pos.col, Off: c.pos.offset}")
 	r.Rule("C03-b", "precedence chain Expression→RecoveryExpr→ChoiceExpr→ActionExpr→SeqExpr→LabeledExpr→PrefixedExpr→SuffixedExpr→PrimaryExpr: refs(level i) ∩ chain ⊆ {level i+1} and contains it; refs(PrimaryExpr) ∩ chain = {Expression}, between \"(\" and \")\"")
 	r.Rule("C03-d", "operator-to-node mapping of the grammar actions: & → AndExpr, ! → NotExpr; ? → ZeroOrOneExpr, * → ZeroOrMoreExpr, + → OneOrMoreExpr; # → StateCodeExpr, & → AndCodeExpr, ! → NotCodeExpr; the operator rules accept exactly these characters; the operand / code block is stored in the constructed node; the recovery chain is built left-nested (Expr = chain so far)")
+	r.Rule("C03-e", "CharClassMatcher.parse keeps every member: each iteration of the reading loop that obtained a rune appends to chars or UnicodeClasses, each iteration of the extraction loop appends to Chars or Ranges")
 	r.Rule("C03-c", "RuleDefOp = {\"=\", \"<-\", U+2190, U+27F5}; SingleCharEscape ⊆ {a,b,f,n,r,t,v,\\}; CharClassMatcher.parse consumes x→2, u→4, U→8, octal→2 further digits, equal to the digit references of HexEscape / ShortUnicodeEscape / LongUnicodeEscape / OctalEscape")
 
 	g := c.G()
@@ -101,6 +102,7 @@ func C03(c *Ctx) {
 		return
 	}
 	root := g.Pkg("")
+	classParserKeepsEveryRune(c, "C03-e")
 	// ---- a
 	nCalls := 0
 	var bad []string
@@ -343,7 +345,10 @@ func C03(c *Ctx) {
 		}
 		return true
 	})
-	type dc struct{ letter, rule, digit string; offset int }
+	type dc struct {
+		letter, rule, digit string
+		offset              int
+	}
 	for _, d := range []dc{{"x", "HexEscape", "HexDigit", 0}, {"u", "ShortUnicodeEscape", "HexDigit", 0}, {"U", "LongUnicodeEscape", "HexDigit", 0}, {"0", "OctalEscape", "OctalDigit", 1}} {
 		want := countRefs(d.rule, d.digit) - d.offset
 		got, ok := consume[d.letter]
@@ -355,6 +360,106 @@ func C03(c *Ctx) {
 			r.Bad("C03-c", "G.ast.CharClassMatcher.parse:digits-of-\\0", "", "ast/ast.go", "octal lead digits are not treated alike")
 		}
 	}
+	c03Surrogates(c, g)
+}
+
+// c03Surrogates: a \u / \U escape denotes a code point; the surrogate halves U+D800..U+DFFF are not code points that a
+// Go string can hold (they would silently become U+FFFD), so validateUnicodeEscape must reject exactly that closed
+// interval (strconv.UnquoteChar rejects values above MaxRune and, for \u/\U, surrogates - the explicit test is the
+// front-end's own statement of the rule and must not be narrower).
+func c03Surrogates(c *Ctx, g *load.G) {
+	r := c.R
+	fd := load.FuncDecl(g.Pkg(""), "", "validateUnicodeEscape")
+	if fd == nil || fd.Body == nil {
+		r.Fatal("anchor main.validateUnicodeEscape not found")
+		return
+	}
+	info := g.Pkg("").TypesInfo
+	found := false
+	var bad []string
+	ast.Inspect(fd.Body, func(n ast.Node) bool {
+		is, ok := n.(*ast.IfStmt)
+		if !ok {
+			return true
+		}
+		lo, hi := int64(-1), int64(-1)
+		var conj func(e ast.Expr) bool
+		conj = func(e ast.Expr) bool {
+			be, ok := e.(*ast.BinaryExpr)
+			if !ok {
+				if pe, ok := e.(*ast.ParenExpr); ok {
+					return conj(pe.X)
+				}
+				return false
+			}
+			if be.Op == token.LAND {
+				return conj(be.X) && conj(be.Y)
+			}
+			cv := func(e ast.Expr) (int64, bool) {
+				if tv, ok := info.Types[e]; ok && tv.Value != nil {
+					if v, ok := constant.Int64Val(constant.ToInt(tv.Value)); ok {
+						return v, true
+					}
+				}
+				return 0, false
+			}
+			op := be.Op
+			k, isL := cv(be.X)
+			if !isL {
+				var isR bool
+				k, isR = cv(be.Y)
+				if !isR {
+					return false
+				}
+				// var op const  →  mirror to const op' var
+				switch op {
+				case token.LSS:
+					op = token.GTR
+				case token.LEQ:
+					op = token.GEQ
+				case token.GTR:
+					op = token.LSS
+				case token.GEQ:
+					op = token.LEQ
+				}
+			}
+			// now: k op var
+			switch op {
+			case token.LEQ:
+				lo = k
+			case token.LSS:
+				lo = k + 1
+			case token.GEQ:
+				hi = k
+			case token.GTR:
+				hi = k - 1
+			default:
+				return false
+			}
+			return true
+		}
+		if !conj(is.Cond) || lo < 0 || hi < 0 {
+			return true
+		}
+		found = true
+		if lo != 0xD800 || hi != 0xDFFF {
+			bad = append(bad, fmt.Sprintf("%s: rejects the interval [U+%04X, U+%04X], expected exactly the surrogate halves [U+D800, U+DFFF]", g.Where(is.Pos()), lo, hi))
+		}
+		rejects := false
+		for _, st := range is.Body.List {
+			if rs, ok := st.(*ast.ReturnStmt); ok && len(rs.Results) == 2 && nospace(rs.Results[1]) != "nil" {
+				rejects = true
+			}
+		}
+		if !rejects {
+			bad = append(bad, g.Where(is.Pos())+": the surrogate test does not return an error")
+		}
+		return true
+	})
+	if !found {
+		bad = append(bad, "no interval test on the decoded code point")
+	}
+	r.Check(len(bad) == 0, "C03-c", "G.main.validateUnicodeEscape:rejects-surrogate-halves", "", g.Where(fd.Pos()), "rejects exactly U+D800..U+DFFF", strings.Join(bad, "; "))
 }
 
 // c03Operators checks the operator -> constructor mapping of the prefix / suffix / semantic-predicate actions.
@@ -586,4 +691,82 @@ func flagMapping(c *Ctx, g *load.G, rule string) {
 		ok := m["c.IgnoreCase"] == `strings.HasSuffix(raw,"i") under []` && m["c.Inverted"] == "raw[0]=='^' under []"
 		r.Check(ok, rule, "G.ast.CharClassMatcher.parse:i-suffix-and-^-prefix", "", g.Where(pf.Pos()), "IgnoreCase = has suffix i; Inverted = starts with ^ (after removing the brackets)", fmt.Sprintf("flags are assigned %v", m))
 	}
+}
+
+// classParserKeepsEveryRune: CharClassMatcher.parse turns the text of a class into Chars, Ranges and UnicodeClasses
+// in two loops. Rule: every iteration of the reading loop that obtained a rune stores something (a character or a
+// Unicode class name), and every iteration of the range-extraction loop stores its rune into Chars or Ranges (or
+// turns the previous character into a range start). No rune value - U+FFFD in particular, which is a legitimate
+// member and the way invalid bytes are matched - may be skipped.
+func classParserKeepsEveryRune(c *Ctx, rule string) {
+	r := c.R
+	g := c.G()
+	if g == nil {
+		return
+	}
+	fd := load.FuncDecl(g.Pkg("ast"), "CharClassMatcher", "parse")
+	if fd == nil || fd.Body == nil {
+		r.Fatal("anchor ast.CharClassMatcher.parse not found")
+		return
+	}
+	recv := recvName(fd)
+	var readLoop *ast.ForStmt
+	var extractLoop *ast.RangeStmt
+	var labeled *ast.LabeledStmt
+	for _, st := range fd.Body.List {
+		if ls, ok := st.(*ast.LabeledStmt); ok {
+			labeled = ls
+			st = ls.Stmt
+		}
+		switch x := st.(type) {
+		case *ast.ForStmt:
+			if x.Cond == nil && readLoop == nil {
+				readLoop = x
+			}
+		case *ast.RangeStmt:
+			extractLoop = x
+		}
+	}
+	_ = labeled
+	if readLoop == nil || extractLoop == nil {
+		r.Unk(rule, "G.ast.CharClassMatcher.parse:loops", "", g.Where(fd.Pos()), "reading loop or extraction loop not found")
+		return
+	}
+	stores := func(p bpath, targets ...string) bool {
+		for _, e := range p {
+			if e.Kind != "assign" {
+				continue
+			}
+			for _, t := range targets {
+				if strings.HasPrefix(e.Text, t+"=append("+t+",") {
+					return true
+				}
+			}
+		}
+		return false
+	}
+	var bad []string
+	paths := enumPaths(readLoop.Body)
+	n := 0
+	for _, p := range paths {
+		if p.has("+", "err!=nil") {
+			continue
+		}
+		n++
+		if !stores(p, "chars", recv+".UnicodeClasses") {
+			bad = append(bad, "an iteration that read a rune stores nothing on the path ["+strings.Join(p.guards(), " ")+"]: that member is silently dropped from the class")
+		}
+	}
+	if n == 0 {
+		bad = append(bad, "no path of the reading loop analysed")
+	}
+	r.Check(len(bad) == 0, rule, "G.ast.CharClassMatcher.parse:reading-loop-keeps-every-rune", "", g.Where(readLoop.Pos()), fmt.Sprintf("%d paths, each appends to chars or UnicodeClasses", n), strings.Join(uniq(bad), "; "))
+	bad = nil
+	paths = enumPaths(extractLoop.Body)
+	for _, p := range paths {
+		if !stores(p, recv+".Chars", recv+".Ranges") {
+			bad = append(bad, "the extraction loop stores nothing on the path ["+strings.Join(p.guards(), " ")+"]")
+		}
+	}
+	r.Check(len(bad) == 0 && len(paths) > 0, rule, "G.ast.CharClassMatcher.parse:extraction-loop-keeps-every-rune", "", g.Where(extractLoop.Pos()), fmt.Sprintf("%d paths, each appends to Chars or Ranges", len(paths)), strings.Join(uniq(bad), "; "))
 }
